@@ -408,7 +408,7 @@ def check_from_registry(chk, prog, cfg, rule="R1.4"):
                 idt, tyt = agg_field(crt, "id"), agg_field(crt, "ty")
                 ap = paths.access_path(eb, idt, roots={item})
                 okid = ap is not None and ap[0] == item and ap[1] == ".0.id"
-                okty = not mir.calls_in(tyt) and paths.access_path(eb, tyt, roots={item}) == (item, ".1")
+                okty = not [c_ for c_ in mir.calls_in(tyt) if c_ not in mir.calls_in(item)] and paths.access_path(eb, tyt, roots={item}) == (item, ".1")
                 ok = okid and okty
                 detail = "%s form: for each item of registry.types(): %s" % (lam.kind, path_str(crt)[:160])
     chk.expect(ok, rule, "From<Registry>:pairs-key-id-with-its-value", b.where(), detail, cfg)
@@ -496,7 +496,7 @@ def check_finish(chk, prog, cfg, rule="R1.6"):
                 if is_call(el, "Interner::elements", nargs=1) and self_field(b, el[2][0], "types") and is_adt_agg(crt, PT):
                     idt, tyt = agg_field(crt, "id"), agg_field(crt, "ty")
                     okid = idt[0] == "cast" and paths.access_path(eb, uncast(idt), roots={item}) == (item, ".0")
-                    okty = not mir.calls_in(tyt) and paths.access_path(eb, tyt, roots={item}) == (item, ".1")
+                    okty = not [c_ for c_ in mir.calls_in(tyt) if c_ not in mir.calls_in(item)] and paths.access_path(eb, tyt, roots={item}) == (item, ".1")
                     ok = okid and okty
                     detail = "%s form: enumerate() item -> %s" % (lam.kind, path_str(crt)[:160])
     chk.expect(ok, rule, "finish", b.where(), detail, cfg)
